@@ -47,7 +47,7 @@ var hCfgVals = map[string][]string{
 	"goos":   {"linux", "darwin", "windows", "plan9"},
 	"goarch": {"amd64", "arm64", "386"},
 	"pkg":    {"p/a", "p/b", "p/c", "golang.org/x/perf/a/very/long/package/path/that/goes/on/and/on/and/on/impl1", "golang.org/x/perf/a/very/long/package/path/that/goes/on/and/on/and/on/impl2"},
-	"cpu":    {"1", "2", "10", "1k", "1Ki", "2M", "1500", "NaN", "inf", "abc", "zed", "3Gi", "1Zi", "1Yi", "2Z", "5.5", "0.5k", "999999999.5", "1000000000", "9.999999994e-1", "1e0", "1.0000000006", "4", "8", "010", "0100", "007", "08", "012k"},
+	"cpu":    {"1", "2", "10", "1k", "1Ki", "2M", "1500", "NaN", "inf", "abc", "zed", "3Gi", "1Zi", "1Yi", "2Z", "5.5", "0.5k", "999999999.5", "1000000000", "9.999999994e-1", "1e0", "1.0000000006", "4", "8", "010", "0100", "007", "08", "012k", ".5k", "1.k", ".5Mi", "2.5k", "600", "5."},
 	"note":   {"base", "opt", "opt2", "x y", "zz"},
 	"commit": {"c1", "c2", "c3", "c4", "c5", "c6"},
 }
@@ -56,7 +56,7 @@ var hShared = []string{"4", "8", "16", "x"}
 
 var hSubKeys = []string{"size", "align", "poly", "fmt", "size2", "al"}
 var hSubVals = map[string][]string{
-	"size":  {"1", "2", "10", "100", "1k", "1Ki", "64", "1M", "abc", "NaN", "010", "0100"},
+	"size":  {"1", "2", "10", "100", "1k", "1Ki", "64", "1M", "abc", "NaN", "010", "0100", ".5k", "1.k", "600"},
 	"align": {"0", "1", "2"},
 	"poly":  {"IEEE", "Castagnoli", "Koopman", "x86-64", "x86-32", "x86"}, // "-digits" inside a name is a GOMAXPROCS suffix only at its very end
 	"fmt":   {"json", "gob", "xml", "v-1", "v-2"},
@@ -101,6 +101,16 @@ func hGenResult(T *sim.Tape, universe int, nsub int) *hResult {
 			continue
 		}
 		name += "/" + k + "=" + sim.Pick(T, hSubVals[k], "subval")
+	}
+	if T.Intn(10, "explicit-gomaxprocs") == 0 {
+		// GOMAXPROCS spelled as a sub-name key, at the end or in the middle of the name
+		part := "/gomaxprocs=" + []string{"1", "4", "8"}[T.Intn(3, "gmpv")]
+		if segs := strings.Split(name, "/"); len(segs) > 1 && T.Bool("gmp-middle") {
+			at := 1 + T.Intn(len(segs)-1, "gmp-at")
+			name = strings.Join(segs[:at], "/") + part + "/" + strings.Join(segs[at:], "/")
+		} else {
+			name += part
+		}
 	}
 	if T.Intn(3, "positional") == 0 {
 		name += "/" + []string{"plain", "x"}[T.Intn(2, "posv")]
@@ -436,7 +446,11 @@ func hNewInstance(r *sim.Run, exprs []hExpr, order []int, resEarly int, badAt in
 			// an expression that is rejected (unknown order) after naming keys that earlier, accepted expressions
 			// already project: it must leave what those registered untouched
 			prevE := exprs[order[r.T.Intn(oi, "bad-parse-reuses")]]
-			bad := hFieldText(prevE.fields[0]) + ",goos@bogus"
+			// (none of these registers anything new before it is turned down)
+			bad := hFieldText(prevE.fields[0]) + []string{",goos@bogus", ",.config@(x y)", ",.unit", ",", ",@alpha", ",.config@(x y),.fullname"}[r.T.Intn(6, "bad-parse-kind")]
+			if r.T.Intn(4, "bad-parse-alone") == 0 {
+				bad = []string{".config@(a b)", ".unit", ".config@(\"\")", "("}[r.T.Intn(4, "bad-alone-kind")]
+			}
 			if _, err := inst.parser.Parse(bad, inst.filter); err == nil {
 				r.Fail("parse", "unknown-order-accepted", "Parse(%q) succeeded", bad)
 			}
